@@ -381,3 +381,298 @@ Example C16_ex_inverse :
   (Z.land 4286578688 (2 ^ 23 - 1) = 0 /\ d2f (f2d 4286578688) = Some 4286578688) /\
   norm_f32 4591870180066957722 = 4591870180174331904.                      (* 0.1 -> 0.10000000149011612 *)
 Proof. vm_compute. repeat split; congruence. Qed.
+
+(* ==================================================================================================
+   GAP CLOSING against the property text (the clause-by-clause table is the header comment of
+   Proofs/C16GapA.v, continued in Proofs/C16GapB.v).  Every theorem of this section is closed under the
+   global context (no real-number axioms here).
+   ================================================================================================== *)
+From BP Require Import Proofs.C16GapA.
+
+(* (1a) "minimal": no legal representation of the same number is shorter; one of the same length is the same bytes *)
+Theorem C16_encode_minimal : forall v bs bs',
+  - 2 ^ 63 <= v < 2 ^ 64 -> encode_varint v = Ok bs -> VarintRep (v mod 2 ^ 64) bs' ->
+  (length bs <= length bs')%nat /\ (length bs' = length bs -> bs' = bs).
+Proof. exact encode_minimal. Qed.
+Print Assumptions C16_encode_minimal.
+
+Theorem C16_canonical_minimal : forall n bs bs',
+  Spec.Varint.canonical n bs -> varint_shape bs' -> varint_value bs' = n ->
+  (length bs <= length bs')%nat /\ (length bs' = length bs -> bs' = bs).
+Proof. exact canonical_minimal. Qed.
+Print Assumptions C16_canonical_minimal.
+
+(* (1b) two's complement: v and v + 2^64 share their bytes; apart from that the encoder is injective *)
+Theorem C16_encode_collision : forall v, - 2 ^ 63 <= v < 0 -> encode_varint v = encode_varint (v + 2 ^ 64).
+Proof. exact encode_collision. Qed.
+Print Assumptions C16_encode_collision.
+
+Theorem C16_encode_inj : forall v1 v2,
+  - 2 ^ 63 <= v1 < 2 ^ 64 -> - 2 ^ 63 <= v2 < 2 ^ 64 ->
+  (encode_varint v1 = encode_varint v2 <-> v1 mod 2 ^ 64 = v2 mod 2 ^ 64).
+Proof. exact encode_inj. Qed.
+Print Assumptions C16_encode_inj.
+
+Theorem C16_encode_inj_unsigned : forall v1 v2,
+  0 <= v1 < 2 ^ 64 -> 0 <= v2 < 2 ^ 64 -> encode_varint v1 = encode_varint v2 -> v1 = v2.
+Proof. exact encode_inj_unsigned. Qed.
+Print Assumptions C16_encode_inj_unsigned.
+
+Theorem C16_encode_inj_signed : forall v1 v2,
+  - 2 ^ 63 <= v1 < 2 ^ 63 -> - 2 ^ 63 <= v2 < 2 ^ 63 -> encode_varint v1 = encode_varint v2 -> v1 = v2.
+Proof. exact encode_inj_signed. Qed.
+Print Assumptions C16_encode_inj_signed.
+
+(* (1c) the upper bound 2^64 of the domain is needed by the inverse theorems: the encoder has no upper check *)
+Theorem C16_upper_bound_refuted :
+  (exists bs, encode_varint (2 ^ 64) = Ok bs /\ length bs = 10%nat /\ size_varint (2 ^ 64) = Ok 10 /\
+              load_varint bs = Ok (2 ^ 64, bs, []) /\ 2 ^ 64 <> (2 ^ 64) mod 2 ^ 64) /\
+  (exists bs, encode_varint (2 ^ 70) = Ok bs /\ length bs = 11%nat /\ load_varint bs = Err ETooLong).
+Proof. exact upper_bound_refuted. Qed.
+Print Assumptions C16_upper_bound_refuted.
+
+(* ... and this is what happens for EVERY non-negative integer: canonical bytes of v itself, read back iff v < 2^70 *)
+Theorem C16_encode_above : forall v rest, 0 <= v ->
+  exists bs, encode_varint v = Ok bs /\ Spec.Varint.canonical v bs /\
+    (v < 2 ^ 70 -> load_varint (bs ++ rest) = Ok (v, bs, rest)) /\
+    (2 ^ 70 <= v -> (10 < length bs)%nat /\ load_varint (bs ++ rest) = Err ETooLong).
+Proof. exact encode_above. Qed.
+Print Assumptions C16_encode_above.
+
+(* (2a) decode, then encode: the same bytes exactly for minimal input, fewer bytes for padded input *)
+Theorem C16_load_reencode : forall s v raw rest,
+  load_varint s = Ok (v, raw, rest) ->
+  exists bs, encode_varint v = Ok bs /\ (length bs <= length raw)%nat /\
+             (bs = raw <-> (length raw = 1%nat \/ last raw x00 <> x00)).
+Proof. exact load_reencode. Qed.
+Print Assumptions C16_load_reencode.
+
+(* (2b) decode_varint on every (buffer, position) *)
+Theorem C16_decode_sound : forall buf pos v p,
+  decode_varint buf pos = Ok (v, p) ->
+  0 <= pos /\ pos < p <= pos + 10 /\ p <= Zlength buf /\
+  exists raw rest, skipn (Z.to_nat pos) buf = raw ++ rest /\ VarintRep v raw /\ p = pos + Zlength raw /\
+                   load_varint (raw ++ rest) = Ok (v, raw, rest).
+Proof. exact decode_sound. Qed.
+Print Assumptions C16_decode_sound.
+
+Theorem C16_decode_neg_pos : forall buf pos, pos < 0 -> decode_varint buf pos = Err EValue.
+Proof. exact decode_neg_pos. Qed.
+Print Assumptions C16_decode_neg_pos.
+
+Theorem C16_decode_past_end : forall buf pos, Zlength buf <= pos -> decode_varint buf pos = Err EEof.
+Proof. exact decode_past_end. Qed.
+Print Assumptions C16_decode_past_end.
+
+Theorem C16_decode_total : forall buf pos,
+  (exists x, decode_varint buf pos = Ok x) \/ decode_varint buf pos = Err EValue \/
+  decode_varint buf pos = Err EEof \/ decode_varint buf pos = Err ETooLong.
+Proof. exact decode_total. Qed.
+Print Assumptions C16_decode_total.
+
+(* (2c) the decoded value is below 2^70, not below 2^64: the ten-byte form is not masked (the reference masks) *)
+Theorem C16_load_value_range : forall s v raw rest,
+  load_varint s = Ok (v, raw, rest) ->
+  0 <= v < 2 ^ 70 /\ v < 128 ^ Z.of_nat (length raw) /\ (1 <= length raw <= 10)%nat.
+Proof. exact load_value_range. Qed.
+Print Assumptions C16_load_value_range.
+
+Theorem C16_load_wide_refuted :
+  exists s v raw rest, load_varint s = Ok (v, raw, rest) /\ 2 ^ 64 <= v /\ length s = 10%nat.
+Proof. exact load_wide_refuted. Qed.
+Print Assumptions C16_load_wide_refuted.
+
+(* (4) rejected iff below -2^63, and only with ValueError *)
+Theorem C16_reject_iff : forall v,
+  (forall e, encode_varint v = Err e <-> (v < - 2 ^ 63 /\ e = EValue)) /\
+  (forall e, size_varint v = Err e <-> (v < - 2 ^ 63 /\ e = EValue)).
+Proof. exact reject_iff. Qed.
+Print Assumptions C16_reject_iff.
+
+(* (5) the three outcomes of the decoder, each characterised exactly by the input *)
+Theorem C16_too_long_iff : forall s,
+  load_varint s = Err ETooLong <-> ((10 <= length s)%nat /\ Forall ge128 (firstn 10 s)).
+Proof. exact too_long_iff. Qed.
+Print Assumptions C16_too_long_iff.
+
+Theorem C16_eof_iff : forall s,
+  load_varint s = Err EEof <-> ((length s < 10)%nat /\ Forall ge128 s).
+Proof. exact eof_iff. Qed.
+Print Assumptions C16_eof_iff.
+
+Theorem C16_ok_iff : forall s,
+  (exists x, load_varint s = Ok x) <->
+  (exists bs rest, s = bs ++ rest /\ varint_shape bs /\ (length bs <= 10)%nat).
+Proof. exact ok_iff. Qed.
+Print Assumptions C16_ok_iff.
+
+Theorem C16_load_err_kinds : forall s e, load_varint s = Err e -> e = EEof \/ e = ETooLong.
+Proof. exact load_err_kinds. Qed.
+Print Assumptions C16_load_err_kinds.
+
+(* non-vacuity *)
+(* [x81; x00] is a legal, longer representation of 1 (hypotheses of C16_encode_minimal); -1 and 2^64 - 1 collide *)
+Example C16_ex_minimal :
+  encode_varint 1 = Ok [x01] /\ VarintRep (1 mod 2 ^ 64) [x81; x00] /\
+  encode_varint (-1) = encode_varint (2 ^ 64 - 1).
+Proof. split; [vm_compute; reflexivity|]. split; [|vm_compute; reflexivity]. repeat split; cbn; lia. Qed.
+(* padded input is accepted and re-encodes to fewer bytes; minimal input to itself *)
+Example C16_ex_reencode :
+  load_varint [x81; x80; x00; x07] = Ok (1, [x81; x80; x00], [x07]) /\ encode_varint 1 = Ok [x01] /\
+  load_varint [xac; x02; x07] = Ok (300, [xac; x02], [x07]) /\ encode_varint 300 = Ok [xac; x02].
+Proof. vm_compute. repeat split. Qed.
+(* decode_varint in the middle of a buffer, at its end, before its start *)
+Example C16_ex_decode :
+  decode_varint [x07; xac; x02; x09] 1 = Ok (300, 3) /\ decode_varint [x07; xac; x02; x09] 4 = Err EEof /\
+  decode_varint [x07; xac; x02; x09] (-1) = Err EValue /\ decode_varint [x07; xac] 1 = Err EEof.
+Proof. vm_compute. repeat split. Qed.
+(* ten continuation bytes: too long, whatever follows; nine: premature end *)
+Example C16_ex_outcomes :
+  load_varint [x80; x80; x80; x80; x80; x80; x80; x80; x80; x80; x01] = Err ETooLong /\
+  load_varint [x80; x80; x80; x80; x80; x80; x80; x80; x80] = Err EEof /\
+  load_varint [x80; x80; x80; x80; x80; x80; x80; x80; x80; x01] = Ok (2 ^ 63, [x80; x80; x80; x80; x80; x80; x80; x80; x80; x01], []).
+Proof. vm_compute. repeat split. Qed.
+
+(* ---------------- clause (6): the scalar KINDS (table: header of Proofs/C16GapB.v) ---------------- *)
+From BP Require Import Model.C16GapDef Proofs.C16GapB.
+
+(* int32, int64, uint32, uint64, sint32, sint64: for every value of the kind's range [varint_kind_range] what
+   _preprocess_single emits is the canonical varint of the number the encoding specification prescribes
+   ([wire_of]: the value mod 2^64, resp. its zig-zag image); load_varint reads exactly these bytes back, whatever
+   follows, and _postprocess_single returns the value.  [msg] (the nested-message encoder) is arbitrary. *)
+Theorem C16_varint_kind_roundtrip : forall msg t w lo hi v,
+  varint_kind_range t = Some (lo, hi) -> lo <= v < hi ->
+  exists bs, preprocess_with msg t w (PInt v) = Ok bs /\
+             Spec.Varint.canonical (wire_of t v) bs /\ (length bs <= 10)%nat /\ 0 <= wire_of t v < 2 ^ 64 /\
+             (forall rest, load_varint (bs ++ rest) = Ok (wire_of t v, bs, rest)) /\
+             postprocess_varint t (wire_of t v) = PInt v.
+Proof. exact varint_kind_roundtrip. Qed.
+Print Assumptions C16_varint_kind_roundtrip.
+
+(* fixed32, sfixed32, fixed64, sfixed64: little-endian two's complement of the kind's width and back; outside: struct.error *)
+Theorem C16_fixed_kind_roundtrip : forall msg t w f lo hi n v,
+  Tables.pack_fmt t = Some f -> fmt_int_range f = Some (lo, hi, n) ->
+  (lo <= v < hi ->
+     preprocess_with msg t w (PInt v) = Ok (twos_le n v) /\ length (twos_le n v) = n /\
+     unpack_value t (twos_le n v) = Ok (PInt v)) /\
+  (~ (lo <= v < hi) -> preprocess_with msg t w (PInt v) = Err EStruct).
+Proof. exact fixed_kind_roundtrip. Qed.
+Print Assumptions C16_fixed_kind_roundtrip.
+
+(* bool (no theorem before): one byte 01 / 00, and back; every non-zero varint decodes to True *)
+Theorem C16_bool_roundtrip : forall msg w b rest,
+  preprocess_with msg TBool w (PBool b) = Ok [if b then x01 else x00] /\
+  load_varint ([if b then x01 else x00] ++ rest) = Ok ((if b then 1 else 0), [if b then x01 else x00], rest) /\
+  postprocess_varint TBool (if b then 1 else 0) = PBool b.
+Proof. exact bool_roundtrip. Qed.
+Print Assumptions C16_bool_roundtrip.
+
+Theorem C16_bool_decode_any : forall v, 0 <= v -> postprocess_varint TBool v = PBool (negb (v =? 0)).
+Proof. exact bool_decode_any. Qed.
+Print Assumptions C16_bool_decode_any.
+
+(* string, bytes: the payload is the value (UTF-8 validity is C01 / C17's subject) *)
+Theorem C16_string_bytes_identity : forall msg w s,
+  preprocess_with msg TString w (PStr s) = Ok s /\ preprocess_with msg TBytes w (PBytes s) = Ok s.
+Proof. exact string_bytes_identity. Qed.
+Print Assumptions C16_string_bytes_identity.
+
+(* a whole singular field of a varint kind, as the single-field messages of the reference comparison have it:
+   canonical varint of (number << 3 | 0), then the value bytes; two load_varint calls read both back *)
+Theorem C16_serialize_varint_field : forall msg num t w lo hi v se,
+  1 <= num < 2 ^ 29 -> varint_kind_range t = Some (lo, hi) -> lo <= v < hi ->
+  exists key bs, serialize_with msg num t (PInt v) se w = Ok (key ++ bs) /\
+                 Spec.Varint.canonical (8 * num) key /\ Spec.Varint.canonical (wire_of t v) bs /\
+                 forall rest, load_varint (key ++ bs ++ rest) = Ok (8 * num, key, bs ++ rest) /\
+                              load_varint (bs ++ rest) = Ok (wire_of t v, bs, rest).
+Proof. exact serialize_varint_field. Qed.
+Print Assumptions C16_serialize_varint_field.
+
+(* the sign recovery of int32 / int64 / enum on ARBITRARY input: always in the signed range, congruent to the input
+   mod 2^bits (the reference's truncation); hence C16_signed's conclusion holds iff the value is in range *)
+Theorem C16_sign_recover_range : forall bits w,
+  0 < bits -> - 2 ^ (bits - 1) <= sign_recover bits w < 2 ^ (bits - 1).
+Proof. exact sign_recover_range. Qed.
+Print Assumptions C16_sign_recover_range.
+
+Theorem C16_sign_recover_mod : forall bits w, 0 < bits -> (sign_recover bits w) mod 2 ^ bits = w mod 2 ^ bits.
+Proof. exact sign_recover_mod. Qed.
+Print Assumptions C16_sign_recover_mod.
+
+Theorem C16_signed_iff : forall bits v, 0 < bits <= 64 ->
+  (sign_recover bits (v mod 2 ^ 64) = v <-> - 2 ^ (bits - 1) <= v < 2 ^ (bits - 1)).
+Proof. exact signed_iff. Qed.
+Print Assumptions C16_signed_iff.
+
+(* zig-zag is a bijection between the signed range and [0, 2^bits); injective everywhere *)
+Theorem C16_zigzag_bijection : forall bits, 0 < bits ->
+  (forall v, - 2 ^ (bits - 1) <= v < 2 ^ (bits - 1) -> 0 <= zigzag v < 2 ^ bits /\ unzigzag (zigzag v) = v) /\
+  (forall u, 0 <= u < 2 ^ bits -> - 2 ^ (bits - 1) <= unzigzag u < 2 ^ (bits - 1) /\ zigzag (unzigzag u) = u) /\
+  (forall v1 v2, zigzag v1 = zigzag v2 -> v1 = v2).
+Proof. exact zigzag_bijection. Qed.
+Print Assumptions C16_zigzag_bijection.
+
+Theorem C16_unzigzag_inverse : forall u, 0 <= u -> zigzag (unzigzag u) = u.
+Proof. exact zigzag_unzigzag. Qed.
+Print Assumptions C16_unzigzag_inverse.
+
+Theorem C16_unzigzag_neg_refuted : exists u, u < 0 /\ zigzag (unzigzag u) <> u.
+Proof. exact unzigzag_neg_refuted. Qed.
+Print Assumptions C16_unzigzag_neg_refuted.
+
+(* the kind ranges: needed for int32 / int64 / uint64 (first three: the value does not come back), NOT enforced by the
+   encoder for uint32 / sint32 (last two: bytes are produced, and come back; the reference raises) *)
+Theorem C16_kind_range_exactness :
+  (preprocess_with no_msg TInt32 None (PInt (2 ^ 31)) = Ok [x80; x80; x80; x80; x08] /\
+   postprocess_varint TInt32 (wire_of TInt32 (2 ^ 31)) = PInt (- 2 ^ 31)) /\
+  (preprocess_with no_msg TInt64 None (PInt (2 ^ 63)) = Ok [x80; x80; x80; x80; x80; x80; x80; x80; x80; x01] /\
+   postprocess_varint TInt64 (wire_of TInt64 (2 ^ 63)) = PInt (- 2 ^ 63)) /\
+  (preprocess_with no_msg TUInt64 None (PInt (-1)) = Ok [xff; xff; xff; xff; xff; xff; xff; xff; xff; x01] /\
+   postprocess_varint TUInt64 (wire_of TUInt64 (-1)) = PInt (2 ^ 64 - 1)) /\
+  (preprocess_with no_msg TUInt32 None (PInt (2 ^ 32)) = Ok [x80; x80; x80; x80; x10] /\
+   postprocess_varint TUInt32 (2 ^ 32) = PInt (2 ^ 32)) /\
+  (preprocess_with no_msg TSInt32 None (PInt (2 ^ 31)) = Ok [x80; x80; x80; x80; x10] /\
+   postprocess_varint TSInt32 (2 ^ 32) = PInt (2 ^ 31)).
+Proof. exact kind_range_exactness. Qed.
+Print Assumptions C16_kind_range_exactness.
+
+Theorem C16_uint_kind_unchecked : forall msg t w v,
+  t = TUInt32 \/ t = TUInt64 -> 0 <= v < 2 ^ 64 ->
+  exists bs, preprocess_with msg t w (PInt v) = Ok bs /\ Spec.Varint.canonical v bs /\
+             (forall rest, load_varint (bs ++ rest) = Ok (v, bs, rest)) /\ postprocess_varint t v = PInt v.
+Proof. exact uint_kind_unchecked. Qed.
+Print Assumptions C16_uint_kind_unchecked.
+
+(* non-vacuity: the six varint kinds and the four fixed kinds have a range, and a concrete in-range value of each class
+   goes through as the theorems say *)
+Example C16_ex_kinds :
+  map varint_kind_range [TInt32; TInt64; TUInt32; TUInt64; TSInt32; TSInt64] =
+    [Some (- 2 ^ 31, 2 ^ 31); Some (- 2 ^ 63, 2 ^ 63); Some (0, 2 ^ 32); Some (0, 2 ^ 64);
+     Some (- 2 ^ 31, 2 ^ 31); Some (- 2 ^ 63, 2 ^ 63)] /\
+  preprocess_with no_msg TInt32 None (PInt (-2)) = Ok [xfe; xff; xff; xff; xff; xff; xff; xff; xff; x01] /\
+  wire_of TInt32 (-2) = 2 ^ 64 - 2 /\ postprocess_varint TInt32 (2 ^ 64 - 2) = PInt (-2) /\
+  preprocess_with no_msg TSInt64 None (PInt (-2)) = Ok [x03] /\ wire_of TSInt64 (-2) = 3 /\
+  postprocess_varint TSInt64 3 = PInt (-2) /\
+  (Tables.pack_fmt TSFixed32 = Some Fmti /\ preprocess_with no_msg TSFixed32 None (PInt (-2)) = Ok [xfe; xff; xff; xff] /\
+   unpack_value TSFixed32 [xfe; xff; xff; xff] = Ok (PInt (-2)) /\
+   preprocess_with no_msg TFixed32 None (PInt (-2)) = Err EStruct) /\
+  serialize_with no_msg 1 TUInt32 (PInt 300) false None = Ok [x08; xac; x02].
+Proof. vm_compute. repeat split. Qed.
+Example C16_ex_sign_recover :
+  sign_recover 32 (2 ^ 31) = - 2 ^ 31 /\ sign_recover 32 (2 ^ 64 - 1) = -1 /\ sign_recover 32 (2 ^ 70 - 1) = -1 /\
+  unzigzag 5 = -3 /\ zigzag (-3) = 5.
+Proof. vm_compute. repeat split. Qed.
+
+(* ---------------- composition with C09: the length walk on a singular field of a varint kind ---------------- *)
+From BP Require Import Model.Len Proofs.C16GapC.
+Theorem C16_len_varint_field : forall msg num t w lo hi v se,
+  1 <= num < 2 ^ 29 -> varint_kind_range t = Some (lo, hi) -> lo <= v < hi ->
+  exists key bs, serialize_with msg num t (PInt v) se w = Ok (key ++ bs) /\
+                 len_single_with msg num t (PInt v) se w = Ok (Zlength key + Zlength bs) /\
+                 2 <= Zlength key + Zlength bs <= 15.
+Proof. exact len_varint_field. Qed.
+Print Assumptions C16_len_varint_field.
+Example C16_ex_len_field :
+  serialize_with no_msg 1 TInt64 (PInt (-1)) false None = Ok ([x08] ++ [xff; xff; xff; xff; xff; xff; xff; xff; xff; x01]) /\
+  len_single_with no_msg 1 TInt64 (PInt (-1)) false None = Ok 11.
+Proof. vm_compute. repeat split. Qed.
